@@ -151,6 +151,15 @@ func fromJSON(ctx context.Context, services coreiface.CoreAPI, jsonLog *iface.JS
 
 	sorting.Sort(sorting.Compare, entries, false)
 
+	// keep the most recent entries only, as the other loaders do
+	if options.Length != nil && *options.Length > -1 {
+		if *options.Length == 0 {
+			entries = []iface.IPFSLogEntry{}
+		} else {
+			entries = entrySlice(entries, -*options.Length)
+		}
+	}
+
 	return &Snapshot{
 		ID:     jsonLog.ID,
 		Heads:  jsonLog.Heads,
